@@ -22,6 +22,7 @@ package zap
 
 import (
 	"fmt"
+	"reflect"
 	"time"
 
 	"go.uber.org/zap/zapcore"
@@ -221,9 +222,29 @@ type stringers[T fmt.Stringer] []T
 
 func (os stringers[T]) MarshalLogArray(arr zapcore.ArrayEncoder) error {
 	for _, o := range os {
-		arr.AppendString(o.String())
+		s, err := stringerValue(o)
+		if err != nil {
+			return err
+		}
+		arr.AppendString(s)
 	}
 	return nil
+}
+
+// stringerValue calls String on a user-supplied value and contains its panics
+// the way a Stringer field does: a nil pointer reads "<nil>", any other panic
+// is returned as an error.
+func stringerValue(s fmt.Stringer) (str string, err error) {
+	defer func() {
+		if r := recover(); r != nil {
+			if v := reflect.ValueOf(s); v.Kind() == reflect.Ptr && v.IsNil() {
+				str = "<nil>"
+				return
+			}
+			err = fmt.Errorf("PANIC=%v", r)
+		}
+	}()
+	return s.String(), nil
 }
 
 // Times constructs a field that carries a slice of time.Times.
